@@ -87,12 +87,18 @@ ImplEffs(effs, queue, w, used) ==
 \*        "base" (other BaseException); per-mode flag: does building the feedback fail inside pedal?
 \* "closeOut": the program ends normally after CLOSING the stream it prints to (sys.stdout.close()); what it had
 \* printed before is still what it wrote (flag "closed_stream_loses_output": the text is gone with the stream)
-Kind(m) == CASE m \in {"normal", "closeOut"} -> "normal"
+\* "consoleFail": the program's last statement prints a character the REAL console cannot encode (an ASCII terminal).
+\* Captured printing takes anything; under run(real_io=True) the echo to the console fails inside print(), which the
+\* program experiences as an exception (UnicodeEncodeError) on that line, and that print wrote nothing.
+Kind(m) == CASE m \in {"normal", "closeOut", "consoleFail"} -> "normal"
              [] m \in {"sysexit", "raiseSysExit"} -> "sysexit"
              [] m \in {"baseKbd", "baseGen", "baseCustom", "baseImport"} -> "base"
              [] OTHER -> "exception"
+KindFor(m, op) == IF m = "consoleFail" THEN (IF op = "run_real" THEN "exception" ELSE "normal") ELSE Kind(m)
+ModeWrites(m, op) == IF m = "consoleFail" /\ op # "run_real" THEN <<"E", "\n">> ELSE <<>>
 \* C04's quantifier: everything except "base" modes and internal faults must be contained
 MustContain(m) == Kind(m) \in {"exception", "sysexit"} /\ m # "internalFault"
+MustContainFor(m, op) == KindFor(m, op) \in {"exception", "sysexit"} /\ m # "internalFault"
 \* does pedal's own recording of the failure raise?  (none in the repaired code except the injected fault)
 CaptureFails(m) == \/ m = "internalFault"
                    \/ "fragile_capture" \in Flags /\ m \in {"excBrokenStr", "nul"}
@@ -108,9 +114,10 @@ EmptyCtx == [out |-> <<>>, inputs |-> <<>>]
 \* inq: the input queue the execution starts from (the sandbox's, or the one handed to run/call through inputs=)
 Exec(prog, kindOfEntry, inq) ==
     LET \* clear_exception; context appended; _start_mocking
-        r == ImplEffs(EffsOf(prog), inq, <<>>, <<>>)
+        r0 == ImplEffs(EffsOf(prog), inq, <<>>, <<>>)
+        r == [r0 EXCEPT !.w = @ \o ModeWrites(prog.mode, kindOfEntry)]
         ctx0 == [out |-> <<>>, inputs |-> r.used]
-        k == Kind(prog.mode)
+        k == KindFor(prog.mode, kindOfEntry)
         \* which handler runs?  "base" has a handler that stops mocking and re-raises
         handled == k \in {"normal", "exception", "sysexit"} \/ "no_base_handler" \notin Flags
         \* flag shared_sleep_patcher: one module-level patcher object for time.sleep; it is not re-entrant, so the outer
@@ -167,7 +174,7 @@ DoExec(prog, a) ==
     LET x == Exec(prog, a.op, IF Honoured(a) THEN a.xs ELSE inputs)
         \* ghost: what the student code really did, starting from the queue the caller asked for
         g0 == RunEffs(EffsOf(prog), IF a.op \in {"run_in", "call_in"} THEN a.xs ELSE q, <<>>, <<>>)
-        g == g0
+        g == [g0 EXCEPT !.w = @ \o ModeWrites(prog.mode, a.op)]
     IN /\ pTrace' = x.pTrace /\ pOut' = x.pOut /\ pSleep' = x.pSleep /\ pMods' = x.pMods /\ patches' = x.patches
        /\ stdouts' = x.stdouts /\ raw' = x.raw /\ lines' = x.lines /\ ctxs' = x.ctxs
        /\ inputs' = IF a.op = "run_real" THEN <<>> ELSE x.inputs
@@ -239,11 +246,11 @@ OuterIdx == Len(ctxs) - NCb(LastProg)      \* the context of the last entry-poin
 Restored == /\ pOut = "real" /\ pSleep = "real" /\ pMods = "real" /\ patches = <<>> /\ stdouts = <<>>
             /\ (file.tracer # "none" => pTrace = "orig")      \* "when tracing is enabled"
 \* C04
-Contained == WasExec /\ MustContain(LastProg.mode) =>
+Contained == WasExec /\ MustContainFor(LastProg.mode, LastA.op) =>
     /\ status = "returned" /\ exc = LastProg.mode
     /\ Cardinality({k \in 1..Len(fbs) : fbs[k].exec = OuterIdx}) = 1
     /\ \A k \in 1..Len(fbs) : fbs[k].exec = OuterIdx => fbs[k].mode = LastProg.mode
-NoSpuriousFb == WasExec /\ Kind(LastProg.mode) = "normal" =>
+NoSpuriousFb == WasExec /\ KindFor(LastProg.mode, LastA.op) = "normal" =>
     status = "returned" /\ exc = "none" /\ ~\E k \in 1..Len(fbs) : fbs[k].exec = OuterIdx
 \* C15
 RECURSIVE LinesFrom(_, _)
